@@ -72,12 +72,12 @@ func binaryArms1(p *Prog, fn *ssa.Function, opP, yP, sideP ssa.Value, inheritedO
 			return
 		}
 		arm := binArm{ret: r, ops: append([]string{}, inheritedOps...), sideTest: inheritedSide}
-		for _, pc := range pathConds(r.Block()) {
-			cond, neg := stripNot(pc.If.Cond)
-			taken := pc.Branch != neg
+		// conditions taken apart: `isSum := ok && op == PLUS; if !isSum { return }` yields both conjuncts
+		for _, pf := range pathFacts(r.Block()) {
+			cond, taken := pf.Cond, pf.Truth
 			switch x := cond.(type) {
 			case *ssa.BinOp:
-				if opP != nil && (x.X == opP || x.Y == opP) && x.Op == token.EQL && taken {
+				if opP != nil && (x.X == opP || x.Y == opP) && ((x.Op == token.EQL && taken) || (x.Op == token.NEQ && !taken)) {
 					kv := x.Y
 					if x.Y == opP {
 						kv = x.X
@@ -567,8 +567,8 @@ func ruleB5(c *Ctx) {
 			case s[anyKey]:
 				// no switch on op at all on this path (e.g. an if-form `y.(*T) && op == PLUS` lowers to nested ifs handled above); accept if some dominating condition tests op
 				tested := false
-				for _, pc := range pathConds(r.Block()) {
-					if bo, ok := pc.If.Cond.(*ssa.BinOp); ok && (bo.X == opP || bo.Y == opP) {
+				for _, pf := range pathFacts(r.Block()) {
+					if bo, ok := pf.Cond.(*ssa.BinOp); ok && (bo.X == opP || bo.Y == opP) {
 						tested = true
 					}
 				}
